@@ -130,6 +130,11 @@ func (dt DateTime) TryEqual(input Any) (bool, bool) {
 		}
 		return dtComponents[i] == valComponents[i], true
 	}
+	// all shared components are equal: the values are equal when they have the same precision
+	// (layouts with and without an offset designator share a precision), undefined otherwise
+	if dateTimeMap[dt.l] == dateTimeMap[val.l] {
+		return true, true
+	}
 	return false, false
 }
 
@@ -160,6 +165,9 @@ func (dt DateTime) Less(input Any) (Boolean, error) {
 			continue
 		}
 		return dtComponents[i] < valComponents[i], nil
+	}
+	if dateTimeMap[dt.l] == dateTimeMap[val.l] {
+		return false, nil // equal values of the same precision
 	}
 	return false, ErrMismatchedPrecision
 }
